@@ -23,6 +23,7 @@ template <class T, class Enable = void>
 struct Br;
 
 // ---------------------------------------------------------------- scalars
+inline void inspect_elems(const bool* p, size_t n);
 template <>
 struct Br<bool> {
   static Sch sch() { Sch s = Sch::Of(K::Bool); s.w = 1; s.name = name(); return s; }
@@ -32,6 +33,7 @@ struct Br<bool> {
     unsigned char b;
     memcpy(&b, &x, 1);
     v = Val::U(b);
+    inspect_elems(&x, 1);
   }
   static void from(const Val& v, bool& x) { x = v.u != 0; }
 };
@@ -99,10 +101,18 @@ struct Br<std::basic_string<C, Tr, A>> {
 };
 
 // ---------------------------------------------------------------- integral sequences (BIN)
+extern volatile unsigned g_bool_sink;
+template <class E>
+inline void inspect_elems(const E*, size_t) {}
+// "inspecting" a bool means loading it as a bool: UBSan (-fsanitize=bool) reports an invalid representation
+inline void inspect_elems(const bool* p, size_t n) {
+  for (size_t i = 0; i < n; i++) g_bool_sink = g_bool_sink + (p[i] ? 1u : 0u);
+}
 template <class E>
 inline void bin_to(const E* p, size_t n, Val& v) {
   v = Val();
   if (n) v.raw.assign(reinterpret_cast<const char*>(p), n * sizeof(E));
+  inspect_elems(p, n);
 }
 template <class E>
 inline void bin_from(const Val& v, E* p, size_t n) {
